@@ -558,9 +558,8 @@ func (s *Server) RpcReadyState(e *am.Event) {
 	}
 
 	ctx := s.Mach.NewStateCtx(ssS.RpcReady)
-	if s.ticker == nil {
-		s.ticker = time.NewTicker(*s.PushInterval.Load())
-	}
+	// always a new one: the loop of a previous RpcReady has stopped its ticker
+	s.ticker = time.NewTicker(*s.PushInterval.Load())
 
 	// avoid dispose
 	t := s.ticker
@@ -570,7 +569,7 @@ func (s *Server) RpcReadyState(e *am.Event) {
 		for {
 			select {
 			case <-ctx.Done():
-				s.ticker.Stop()
+				t.Stop()
 				return
 
 			case <-t.C:
